@@ -1034,6 +1034,12 @@ impl Router {
             let qos = filter.qos as u8;
             self.scheduler.update_qos(id, filter_path, qos);
             self.datalog.update_waiter_qos(id, filter_idx, filter_path, qos);
+            // ... or, woken by a publish earlier in this read, in `notifications`
+            for (cid, request) in self.notifications.iter_mut() {
+                if *cid == id && request.filter == *filter_path {
+                    request.qos = qos;
+                }
+            }
         }
 
         // TODO: figure out how we can forward retained messages on every subscribe
